@@ -676,7 +676,10 @@ impl<'a, R: ?Sized + std::io::BufRead> Tokenizer<'a, R> {
                     if nesting_count == 0 {
                         break;
                     }
-                    state.append_char(self.next_char()?.unwrap());
+                    state.append_char(
+                        self.next_char()?
+                            .ok_or(TokenizerError::UnterminatedCommandSubstitution)?,
+                    );
                 }
                 TokenEndReason::EndOfInput => {
                     return Err(TokenizerError::UnterminatedExpansion);
@@ -685,7 +688,13 @@ impl<'a, R: ?Sized + std::io::BufRead> Tokenizer<'a, R> {
             }
         }
 
-        state.append_char(self.next_char()?.unwrap());
+        // N.B. The terminating character may already be gone when queued here-document
+        // tokens were drained in between (`a <<E $(<newline>)`): that is an unterminated
+        // construct, not a reason to panic.
+        state.append_char(
+            self.next_char()?
+                .ok_or(TokenizerError::UnterminatedCommandSubstitution)?,
+        );
         Ok(())
     }
 
@@ -1033,7 +1042,10 @@ impl<'a, R: ?Sized + std::io::BufRead> Tokenizer<'a, R> {
                                     TokenEndReason::SpecifiedTerminatingChar => {
                                         // We hit the end brace we were looking for but did not
                                         // yet consume it. Do so now.
-                                        state.append_char(self.next_char()?.unwrap());
+                                        state.append_char(
+                                            self.next_char()?
+                                                .ok_or(TokenizerError::UnterminatedVariable)?,
+                                        );
                                         break;
                                     }
                                     TokenEndReason::EndOfInput => {
